@@ -19,18 +19,20 @@ import (
 
 // Deviation kinds for HTTPS devices.
 const (
-	DevHTTP500    = "http500"
-	DevHTTP403    = "http403"
-	DevHTTP502E   = "http502-empty"  // error status with an empty body (gateway in front of the device)
-	DevHTTP400J   = "http400-json"   // error status with a JSON/XML error document
-	DevStallBody  = "stall-body"     // status line, headers and the first bytes of the body arrive, then nothing more
-	DevRedirClose = "redirect-close" // 307 to a location that keeps the query; that request is then closed
-	DevRedirLoop  = "redirect-loop"  // 307 to itself until the client gives up
-	DevMalformed  = "malformed"
-	DevAPIError   = "api-error"  // PAN-OS status="error"
-	DevCommitMsg  = "commit-msg" // PAN-OS commit answers with a message
-	DevJobFail    = "job-fail"   // PAN-OS commit job result FAIL
-	DevJobPend    = "job-pend"   // PAN-OS: PEND twice, then the result
+	DevHTTP500     = "http500"
+	DevHTTP403     = "http403"
+	DevHTTP502E    = "http502-empty"  // error status with an empty body (gateway in front of the device)
+	DevHTTP400J    = "http400-json"   // error status with a JSON/XML error document
+	DevStallBody   = "stall-body"     // status line, headers and the first bytes of the body arrive, then nothing more
+	DevRedirClose  = "redirect-close" // 307 to a location that keeps the query; that request is then closed
+	DevRedirLoop   = "redirect-loop"  // 307 to itself until the client gives up
+	DevMalformed   = "malformed"
+	DevTruncated   = "truncated"    // the genuine reply, cut off right behind the key / token it carries (or in the middle), sent as a complete reply
+	DevHTTP404Echo = "http404-echo" // error page of a web server / proxy that quotes the requested URL
+	DevAPIError    = "api-error"    // PAN-OS status="error"
+	DevCommitMsg   = "commit-msg"   // PAN-OS commit answers with a message
+	DevJobFail     = "job-fail"     // PAN-OS commit job result FAIL
+	DevJobPend     = "job-pend"     // PAN-OS: PEND twice, then the result
 )
 
 // StallBodyMax: how long a client may stay connected to a reply that
@@ -192,6 +194,41 @@ func (h *HTTPS) serve(w http.ResponseWriter, r *http.Request) {
 	case DevMalformed:
 		h.rec(desc, class, dev, false)
 		w.Write([]byte("<<<not xml, not json"))
+		return
+	}
+	if dev == DevHTTP404Echo {
+		h.rec(desc, class, dev, false)
+		w.Header().Set("Content-Type", "text/html")
+		w.WriteHeader(404)
+		fmt.Fprintf(w, "<html><head><title>404 Not Found</title></head><body><h1>Not Found</h1><p>The requested URL %s was not found on this server.</p></body></html>\n", r.URL.RequestURI())
+		return
+	}
+	if dev == DevTruncated {
+		// the request is served, its reply is cut off
+		rec := httptest.NewRecorder()
+		if h.Flavor == "panos" {
+			h.servePanos(rec, r, desc, class, "")
+		} else {
+			h.serveNSX(rec, r, string(body), desc, class, "")
+		}
+		if n := len(h.Trans); n > 0 {
+			h.Trans[n-1].Dev, h.Trans[n-1].Accepted = dev, false
+		}
+		full := rec.Body.String()
+		cut := len(full) / 2
+		if i := strings.Index(full, h.Key); i >= 0 && h.Key != "" {
+			cut = i + len(h.Key) + 3 // inside the closing tag behind the key
+			if cut > len(full) {
+				cut = len(full)
+			}
+		}
+		for k, v := range rec.Header() {
+			if k != "Content-Length" {
+				w.Header()[k] = v
+			}
+		}
+		w.WriteHeader(rec.Code)
+		w.Write([]byte(full[:cut]))
 		return
 	}
 	if h.Flavor == "panos" {
